@@ -898,7 +898,12 @@ def jcall(B, fn, *args, while_bound=4, interp=None):
     leaves, treedef = jax.tree_util.tree_flatten(args, is_leaf=lambda x: isinstance(x, np.ndarray) or isinstance(x, (SR, SC, SI)))
     leaves = [np.asarray(l, dtype=object) if isinstance(l, (SR, SC, SI)) else l for l in leaves]
     if B.mode != "sym":
-        cargs = jax.tree_util.tree_unflatten(treedef, [jnp.asarray(np.asarray(l, dtype=np.complex128 if np.iscomplexobj(l) else None)) for l in leaves])
+        def _num(l):
+            l = np.asarray(l)
+            if l.dtype == object:            # concrete numbers that travelled through an object array
+                l = np.array(l.tolist())
+            return jnp.asarray(l)
+        cargs = jax.tree_util.tree_unflatten(treedef, [_num(l) for l in leaves])
         out = fn(*cargs)
         return jax.tree_util.tree_map(lambda x: np.asarray(x), out)
     examples = [_example(l) for l in leaves]
